@@ -280,6 +280,8 @@ class Client:
         w.sched.decide(self.idx, [self.idx, self.op["id"], self.k], in_lib=True)
 
     def on_open(self, name):
+        import os as _os
+        name = _os.path.basename(str(name))     # never a process-specific directory
         w = self.world
         self.opens += 1
         self.k += 1
@@ -554,6 +556,32 @@ class World:
         if inst is None:
             return self._skip(rec, "empty-slot")
         torch = self.L.torch
+        if op["how"] == "load_other":
+            # checkpoint of a differently configured module of the same class
+            # loaded IN PLACE into the live module (load_state_dict copies into
+            # the existing tensors); skipped if the shapes do not match
+            step = ["load_other", inst.family, op["params2"], self.intended_default]
+            self.dtype_sensitive += 1
+            try:
+                # building the other module runs (pre-emptible) library code ...
+                status, other = cl.guarded(lambda: catalog.build(step[1], step[2]))
+            finally:
+                self.dtype_sensitive -= 1
+            if status != "ok":
+                return self._skip(rec, "load-other-failed")
+            # ... the load itself is one atomic step on an idle module
+            if inst.inflight > 0:
+                cl.wait_for(lambda: inst.inflight == 0)
+            try:
+                load_other(inst.mod, step, other)
+            except Exception:  # noqa - shapes do not match
+                return self._skip(rec, "load-other-failed")
+            for h in self.handles:
+                if h.rec.get("iid") == inst.iid or h.rec.get("iid2") == inst.iid:
+                    h.graph_alive = False     # saved filters were overwritten in place
+            inst.recipe = inst.recipe + [step]
+            rec["outcome"] = "ok"
+            return
         inst.mod = apply_convert(inst.mod, op["how"], torch)
         inst.recipe = inst.recipe + [["convert", op["how"]]]
         rec["outcome"] = "ok"
@@ -1064,6 +1092,20 @@ def check_args_untouched(before, ident):
     return None
 
 
+def load_other(mod, step, other=None):
+    if other is None:
+        other = catalog.build(step[1], step[2])
+    mine = mod.state_dict()
+    theirs = other.state_dict()
+    # load_state_dict copies the matching tensors before it reports a mismatch:
+    # never start a load that cannot complete
+    if set(mine) != set(theirs) or any(mine[k].shape != theirs[k].shape for k in mine):
+        raise ValueError("checkpoint of another configuration does not fit")
+    sd = {k: v.detach().clone().to(mine[k].dtype) for k, v in theirs.items()}
+    mod.load_state_dict(sd)
+    return mod
+
+
 def do_restart(L, mod, recipe, step):
     how = step[1]
     torch = L.torch
@@ -1216,7 +1258,8 @@ def select_backward(torch, outputs, leaves, op):
 
 # ---- functional API ---------------------------------------------------------
 
-FUNCS = ["afb2d", "sfb2d", "afb2d_nonsep", "sfb2d_nonsep", "afb2d_atrous", "afb1d", "sfb1d"]
+FUNCS = ["afb2d", "sfb2d", "afb2d_nonsep", "sfb2d_nonsep", "afb2d_atrous", "afb1d", "sfb1d",
+         "cplxdual2D"]
 
 
 def func_args(L, op):
@@ -1263,6 +1306,9 @@ def run_func(L, op, a):
     if fn == "afb2d_atrous":
         filts = ll.prep_filt_afb2d(lo, hi) if prep else (lo, hi)
         return ll.afb2d_atrous(t[0], filts, mode, op.get("dilation", 1))
+    if fn == "cplxdual2D":
+        return L.ll2.cplxdual2D(t[0], op.get("J", 2), level1=op.get("level1", "farras"),
+                                qshift=op.get("qshift", "qshift_a"), mode=mode)
     if fn == "afb1d":
         return ll.afb1d(t[0], lo, hi, mode, op.get("dim", -1))
     if fn == "sfb1d":
